@@ -816,17 +816,20 @@ pub fn run_program_opts(prog: &Program, sched_seed: u64, opts: &RunOpts, out: &m
         });
     }
     // phase 1
+    let clean_done_flag = Rc::new(Cell::new(false));
+    let cdf = clean_done_flag.clone();
     let mut triggered = opts.fault.is_some();
     let mut clean_done = false;
     let env2 = env.clone();
     let dead2 = dead.clone();
     let clean = opts.clean;
     let victim = opts.victim;
-    let end1 = w.run_with(&mut rng, 600_000, &mut |w: &mut World| {
+    let mut hook = |w: &mut World| {
         let Some(v) = victim else { return };
         if let (Some((k, cause)), false) = (clean, clean_done) {
             if w.ops_done(v, CLIENT_SIDE) >= base_ops + k {
                 clean_done = true;
+                cdf.set(true);
                 triggered = true;
                 match cause {
                     Clean::ShutdownRequested => {
@@ -854,8 +857,21 @@ pub fn run_program_opts(prog: &Program, sched_seed: u64, opts: &RunOpts, out: &m
         if w.dx.is_done(w.clients[v].run_task) && dead2.get().is_none() {
             dead2.set(true);
         }
-    });
-    rep.triggered = triggered;
+    };
+    // the trigger point may be the very end of the program: look once more at quiescence
+    let mut end1 = w.run_with(&mut rng, 600_000, &mut hook);
+    for _ in 0..3 {
+        if end1 != RunEnd::Quiescent {
+            break;
+        }
+        hook(&mut w);
+        if !w.dx.any_ready() {
+            break;
+        }
+        end1 = w.run_with(&mut rng, 600_000, &mut hook);
+    }
+    let _ = triggered;
+    rep.triggered = opts.fault.is_some() || clean_done_flag.get();
     if let Some(v) = opts.victim {
         rep.victim_ops = (w.ops_done(v, CLIENT_SIDE) - base_ops, w.ops_done(v, BROKER_SIDE));
         rep.victim_run = w.clients[v].run_result.borrow().clone();
@@ -877,7 +893,7 @@ pub fn run_program_opts(prog: &Program, sched_seed: u64, opts: &RunOpts, out: &m
         // fault-injection run: the victim's client must have stopped, and everything that works
         // on its handles must have resolved
         let fault_hit = opts.fault.map(|(side, _, _)| w.clients[v].pipe.borrow().ends[side].broken.is_some()).unwrap_or(false);
-        let stopped_expected = fault_hit || (opts.clean.is_some() && rep.triggered);
+        let stopped_expected = fault_hit || clean_done_flag.get();
         rep.triggered = stopped_expected;
         if stopped_expected {
             if !w.dx.is_done(w.clients[v].run_task) {
@@ -984,8 +1000,8 @@ impl Check for C06 {
     }
     fn total_cases(&self, tier: Tier) -> u64 {
         match tier {
-            Tier::Quick => 4000,
-            Tier::Thorough => 400_000,
+            Tier::Quick => 24000,
+            Tier::Thorough => 2_000_000,
         }
     }
     fn run_case(&self, ctx: &Ctx, idx: u64, out: &mut Outcome) {
